@@ -3,6 +3,7 @@
 // for the same chunk while a transfer is outstanding), acknowledge some transfers and let others
 // time out; the node ticks on its own.
 #include "worlds/w2_rig.hpp"
+#include "worlds/swarm_variant.hpp"
 
 using namespace wl;
 
@@ -188,6 +189,7 @@ Scenario make_c23() {
     s.rule = "plan = global limit 0..4, per-peer limit 0..3, transfer timeout {2,5,30 s}, 1..3 peers, tick period, network knobs + 4..26 ops (request for held/unknown/expired chunk, positive/negative ack, waits up to past the timeout); non-trivial = a request repeated for a chunk whose transfer is still outstanding; distinct = plan hash";
     s.gen = gen_c23; s.exec = exec_c23; s.kernel_knobs = rig_knobs;
     s.quick_runs = 2500; s.thorough_runs = 100000; s.quick_secs = 50; s.thorough_secs = 900;
+    add_swarm_variant(s, 15);
     return s;
 }
 Registrar reg_c23(make_c23);
